@@ -9,6 +9,7 @@ From TS Require Model.Writer.
 From TS Require Import Spec.C12Spec.
 From TS Require Proofs.C02_Witness.
 From TS Require Import Proofs.C14Witness Proofs.C12Obs Proofs.C12Multi.
+From TS Require Import Spec.C17Spec Proofs.C12MultiGo Proofs.C12MultiSwift Proofs.C12MultiStateless.
 Import ListNotations.
 Local Open Scope string_scope.
 Local Open Scope list_scope.
@@ -139,4 +140,127 @@ Proof.
   split; [vm_compute; auto|]. split; [intros H; vm_compute in H; repeat (destruct H as [H|H]; [discriminate H|]); exact H|].
   split; [vm_compute; auto|]. split; [intros H; vm_compute in H; repeat (destruct H as [H|H]; [discriminate H|]); exact H|].
   vm_compute; reflexivity.
+Qed.
+
+(* ---------------------------------------------------------------- Swift
+     alpha/src/lib.rs:  #[typeshare] struct Ping { nothing: () }
+     beta/src/lib.rs:   #[typeshare] struct Plain { n: u32 }
+   Only the FIRST crate (alphabetically, the order of the run) uses (). *)
+Definition y_unit : ty := TTuple [].
+Definition y_plain_beta : ws_entry :=
+  w_entry (lit "beta") (w_file [w_struct [] (lit "Plain") [w_fld (lit "n") (w_ty (lit "u32"))]] [[lit "typeshare"]; [lit "u32"]]).
+Definition ws_sw_unit : list ws_entry :=
+  [w_entry (lit "alpha") (w_file [w_struct [] (lit "Ping") [w_fld (lit "nothing") y_unit]] [[lit "typeshare"]]); y_plain_beta].
+Definition y_sw_cfg : sw_config := C02_Witness.c02_w_sw_cfg.
+Definition tln (s : string) : str := [ch_tab] ++ lit s ++ [ch_nl].
+Definition ttln (s : string) : str := [ch_tab; ch_tab] ++ lit s ++ [ch_nl].
+
+Definition y_alpha_swift : str :=
+  ln "import Foundation" ++ [ch_nl] ++ ln "public struct Ping: Codable {" ++ tln "public let nothing: CodableVoid" ++ [ch_nl] ++
+  tln "public init(nothing: CodableVoid) {" ++ ttln "self.nothing = nothing" ++ tln "}" ++ ln "}".
+Definition y_beta_swift : str :=
+  ln "import Foundation" ++ [ch_nl] ++ ln "public struct Plain: Codable {" ++ tln "public let n: UInt32" ++ [ch_nl] ++
+  tln "public init(n: UInt32) {" ++ ttln "self.n = n" ++ tln "}" ++ ln "}".
+Definition y_codable_swift : str :=
+  [ch_nl] ++ ln "/// () isn't codable, so we use this instead to represent Rust's unit type" ++ ln "public struct CodableVoid: Codable {}".
+Definition y_folder : str := lit "o".
+Definition y_path (name : string) : str := Writer.path_join y_folder (lit name).
+
+(* NON-VACUITY: Alpha.swift spells CodableVoid and does not define it, Beta.swift neither uses nor defines it; the
+   flag alpha sets survives beta's file; the run on an empty folder writes the two files AND Codable.swift with
+   the definition *)
+Example c12_multi_swift_nonvacuous :
+  exists plan p_alpha p_beta ds_alpha ds_beta,
+    y_plan Swift ws_sw_unit = Some plan /\ plan = [p_alpha; p_beta] /\
+    map op_crate plan = [lit "alpha"; lit "beta"] /\
+    forallb (fun p => c12_sw_dom y_sw_cfg (items_of (op_data p))) plan = true /\
+    generate_crates (sw_multi_gen uc_exec y_sw_cfg) false plan =
+      ([(lit "Alpha.swift", Writer.Generated y_alpha_swift); (lit "Beta.swift", Writer.Generated y_beta_swift)], Ok true) /\
+    sw_multi_decls uc_exec y_sw_cfg false (op_data p_alpha) = Ok (ds_alpha, true) /\
+    c12_sw_uses ds_alpha = [lit "CodableVoid"; lit "CodableVoid"] /\ c12_sw_defs ds_alpha = [] /\
+    sw_multi_decls uc_exec y_sw_cfg true (op_data p_beta) = Ok (ds_beta, true) /\
+    c12_sw_uses ds_beta = [] /\ c12_sw_defs ds_beta = [] /\
+    Writer.run_full [] 1%N (multi_outputs y_folder
+                              [(lit "Alpha.swift", Writer.Generated y_alpha_swift); (lit "Beta.swift", Writer.Generated y_beta_swift)]
+                              (sw_multi_codable y_sw_cfg (Ok true))) =
+      ([(y_path "Alpha.swift", (y_alpha_swift, 1%N)); (y_path "Beta.swift", (y_beta_swift, 1%N));
+        (y_path "Codable.swift", (y_codable_swift, 1%N))], Writer.ExitOk) /\
+    codable_path y_folder = y_path "Codable.swift".
+Proof.
+  do 5 eexists. split; [vm_compute; reflexivity|]. split; [reflexivity|].
+  repeat (split; [vm_compute; reflexivity|]). vm_compute; reflexivity.
+Qed.
+
+(* REGRESSION PIN (the seeded change "begin_file clears the CodableVoid flag": sw_reset_gen = the multi-file
+   generator started from a cleared flag for every file).  The same two files are written, Alpha.swift still spells
+   CodableVoid, but the run ends with the flag of the LAST crate: no Codable.swift. *)
+Definition sw_reset_gen (cfg : sw_config) (st : sw_state) (c : str) (im : scoped) (pd : parsed) :=
+  sw_multi_gen uc_exec cfg false c im pd.
+Example c12_multi_swift_reset_regression :
+  exists plan,
+    y_plan Swift ws_sw_unit = Some plan /\
+    generate_crates (sw_reset_gen y_sw_cfg) false plan =
+      ([(lit "Alpha.swift", Writer.Generated y_alpha_swift); (lit "Beta.swift", Writer.Generated y_beta_swift)], Ok false) /\
+    sw_multi_codable y_sw_cfg (Ok false) = None /\
+    Writer.content (Writer.run [] 1%N (multi_outputs y_folder
+                      [(lit "Alpha.swift", Writer.Generated y_alpha_swift); (lit "Beta.swift", Writer.Generated y_beta_swift)]
+                      (sw_multi_codable y_sw_cfg (Ok false)))) (codable_path y_folder) = None.
+Proof.
+  eexists. split; [vm_compute; reflexivity|]. repeat (split; [vm_compute; reflexivity|]). vm_compute; reflexivity.
+Qed.
+
+(* ---------------------------------------------------------------- Go (workspace ws_py_plain: only crate alpha has an
+   OffsetDateTime): beta.go imports time too - the set is not cleared -, more than it uses, never less *)
+Definition y_go_cfg : go_config := C02_Witness.c02_w_go_cfg [].
+Fixpoint go_multi_observations (cfg : go_config) (st : go_state) (plan : list out_plan)
+  : list (str * outcome (list str * list str)) :=
+  match plan with
+  | [] => []
+  | p :: r => (op_file p, c12_go_observe_multi uc_exec cfg st (op_data p)) ::
+              match go_multi_decls uc_exec cfg st (op_data p) with
+              | Ok (_, st') => go_multi_observations cfg st' r
+              | _ => []
+              end
+  end.
+Definition y_beta_go : str :=
+  ln "package p" ++ [ch_nl] ++ ln "import (" ++ tln """encoding/json""" ++ tln """time""" ++ ln ")" ++ [ch_nl] ++
+  ln "type Plain struct {" ++ tln "N uint32 `json:""n""`" ++ ln "}".
+Example c12_multi_go_nonvacuous :
+  exists plan t_alpha,
+    y_plan Go ws_py_plain = Some plan /\
+    map op_crate plan = [lit "alpha"; lit "beta"] /\
+    forallb (fun p => c12_go_dom y_go_cfg (items_of (op_data p))) plan = true /\
+    generate_crates (go_multi_gen uc_exec y_go_cfg) [] plan =
+      ([(lit "alpha.go", Writer.Generated t_alpha); (lit "beta.go", Writer.Generated y_beta_go)], Ok [lit "encoding/json"; lit "time"]) /\
+    go_multi_observations y_go_cfg [] plan =
+      [(lit "alpha.go", Ok ([lit "time"], [lit "json"; lit "time"])); (lit "beta.go", Ok ([], [lit "json"; lit "time"]))].
+Proof.
+  do 2 eexists. split; [vm_compute; reflexivity|]. repeat (split; [vm_compute; reflexivity|]). vm_compute; reflexivity.
+Qed.
+
+(* ---------------------------------------------------------------- Kotlin, Scala (workspace ws_sw_unit): stateless, every file has
+   its own header / alias block *)
+Example c12_multi_kotlin_nonvacuous :
+  exists plan t_alpha t_beta,
+    y_plan Kotlin ws_sw_unit = Some plan /\
+    forallb (fun p => y_none (c12_kt_known C02_Witness.c02_w_kt_cfg (op_data p))) plan = true /\
+    generate_crates (kt_multi_gen uc_exec C02_Witness.c02_w_kt_cfg) tt plan =
+      ([(lit "alpha.kt", Writer.Generated t_alpha); (lit "beta.kt", Writer.Generated t_beta)], Ok tt) /\
+    map (fun p => c12_kt_observe_multi uc_exec C02_Witness.c02_w_kt_cfg (op_crate p) (op_data p)) plan =
+      [Ok ([lit "Serializable"], [lit "Serializable"; lit "SerialName"]);
+       Ok ([lit "Serializable"], [lit "Serializable"; lit "SerialName"])].
+Proof.
+  do 3 eexists. split; [vm_compute; reflexivity|]. repeat (split; [vm_compute; reflexivity|]). vm_compute; reflexivity.
+Qed.
+
+Example c12_multi_scala_nonvacuous :
+  exists plan t_alpha t_beta,
+    y_plan Scala ws_sw_unit = Some plan /\
+    forallb (fun p => c12_sc_dom (op_data p)) plan = true /\
+    generate_crates (sc_multi_gen uc_exec C02_Witness.c02_w_sc_cfg) tt plan =
+      ([(lit "alpha.scala", Writer.Generated t_alpha); (lit "beta.scala", Writer.Generated t_beta)], Ok tt) /\
+    map (fun p => c12_sc_observe uc_exec C02_Witness.c02_w_sc_cfg (op_data p)) plan =
+      [Ok ([], []); Ok ([lit "UInt"], [lit "UByte"; lit "UShort"; lit "UInt"; lit "ULong"])].
+Proof.
+  do 3 eexists. split; [vm_compute; reflexivity|]. repeat (split; [vm_compute; reflexivity|]). vm_compute; reflexivity.
 Qed.
